@@ -841,6 +841,23 @@ fn locator_family(ctx: &Ctx, report: &mut Report) {
                 }
             }
         }
+        // ActiveChain::get_ancestor(base, n) for every base of a grid and EVERY height n up to the tip
+        // and one above: the parent walk gives the ancestor for n <= base.number and nothing above it
+        {
+            let tipn = main.last().unwrap().number();
+            let bases: Vec<&ckb_types::core::BlockView> = main.iter().step_by(5).chain(main.iter().skip(fork_at as usize - 1).take(4)).chain(side.iter().step_by(4)).chain(std::iter::once(main.last().unwrap())).collect();
+            for base in bases {
+                let chain = chain_of(base);
+                for n in 0..=tipn + 1 {
+                    let want = chain.get(n as usize).cloned();
+                    let got = active.get_ancestor(&base.hash(), n).map(|v| v.hash());
+                    report.evaluations += 1;
+                    if got != want {
+                        report.violation("locator/active-chain-ancestor", format!("ActiveChain::get_ancestor(block {} on the {}, {n}) = {:?}, the parent walk gives {:?}", base.number(), if side.iter().any(|s| s.hash() == base.hash()) { "side branch" } else { "main chain" }, got.as_ref().map(|h| by_hash.get(h).map(|b| b.number())), want.as_ref().map(|h| by_hash.get(h).map(|b| b.number()))), label.clone());
+                    }
+                }
+            }
+        }
         // last common ancestor over a grid of pairs
         let grid: Vec<&ckb_types::core::BlockView> = main.iter().step_by(7).chain(main.iter().skip(fork_at as usize - 2).take(5)).chain(side.iter().step_by(5)).chain(side.iter().take(3)).collect();
         for a in &grid {
